@@ -285,7 +285,8 @@ def class_table(nodes, paths, reverse=False):
     table = {}
     for p in (reversed(paths) if reverse else paths):
         try:
-            table[p] = type(nodes.by(p)).__name__
+            n = nodes.by(p)
+            table[p] = type(n).__name__ if n.full_path == p else f'{type(n).__name__}@{n.full_path}'
         except Exception as e:  # noqa
             table[p] = f'raises:{type(e).__name__}'
     return table
@@ -363,7 +364,9 @@ def order_corpus(quick: bool):
              'try:\n\tpass\nexcept E as e:\n\tpass', 'with a as f:\n\tpass', 'from m import x as y', 'class E(Enum):\n\tA = 1', 'x = [i for i in a]', 'f = lambda x: x',
              'def f() -> None:\n\t"""doc"""\n\tpass', 'x: list[int] = []', 'x: dict[str, int] = {}', 'x: Callable[[int], None] = f', 'cls.a = self.b', 'super().__init__()',
              'class C:\n\tx: ClassVar[int] = 1', "T = TypeVar('T')", 'A: TypeAlias = int']
-    return base if not quick else base[::2] + base[1:8:2]
+    wide = ['\n'.join(f'x{i} = {i}' for i in range(12)), 'f(' + ', '.join(f'a{i}' for i in range(12)) + ')',
+            'def f(' + ', '.join(f'p{i}: int' for i in range(12)) + ') -> None:\n\tpass', '[' + ', '.join(str(i) for i in range(13)) + ']']
+    return (base if not quick else base[::2] + base[1:8:2]) + wide
 
 
 def run(ctx):
@@ -379,7 +382,23 @@ def run(ctx):
     for cnt, viol in res:
         trees += cnt
         ctx.merge(viol)
-    ctx.log(f'part A: {trees} labelled trees with <= {n_max} entries')
+    # wide families beyond the enumeration bound: 10..13 siblings (two-digit indices), repeated and unique tags mixed
+    wide_viol = []
+    for k in (10, 11, 12, 13):
+        for pattern in ('same', 'alternate', 'one-unique', 'with-empty'):
+            ch = []
+            for i in range(k):
+                tag = 'a' if pattern == 'same' or (pattern == 'alternate' and i % 2 == 0) or (pattern == 'one-unique' and i != 3) or (pattern == 'with-empty' and i % 3) else ('b' if pattern != 'with-empty' else None)
+                if tag is None:
+                    ch.append(None)
+                elif i % 4 == 1:
+                    ch.append({'name': tag, 'children': [{'name': 'b', 'value': f'w{i}'}]})
+                else:
+                    ch.append({'name': tag, 'value': f'w{i}'})
+            trees += 1
+            wide_viol += check_tree({'name': 'r', 'children': ch}, f'wide{k}-{pattern}')
+    ctx.merge(wide_viol)
+    ctx.log(f'part A: {trees} labelled trees with <= {n_max} entries (+ wide families)')
     # real parse trees: same laws do not need the reference builder; bijection via pluck on every real module
     # ---- part B
     texts = order_corpus(ctx.quick)
